@@ -224,6 +224,31 @@ def run(M, rep, tier, only=None):
                         bad = (p, e, vt)
         rep.check(R3, "H5Group.copy", bad is None and n >= 2, "re-id of a copy does not use a fresh uuid4 for the root and "
                   "the nested groups (%d writes)" % n, site=cp.file, detail=describe_path(bad[0]) if bad else None)
+        # every object below the copy that carries an entity_id is re-id'd, whatever its HDF5 kind (properties are
+        # datasets): the visitor may skip an object only after finding that it has no entity_id attribute
+        skip = None
+        nvis = 0
+        for p in explore(rcfg, cp, "H5Group", None, 4000):
+            keep = [v for a, v in p.decisions if a[0] in ("truthy", "eq") and "keep_id" in show(a[1])]
+            vis = [e for e in p.events if e.kind == "raw" and e.op.split(".")[-1] in ("visititems", "visit")]
+            if not vis:
+                continue
+            entered = [v for a, v in p.decisions if a[0] == "iter" and a[1] == "visit"]
+            if not entered or entered[0] is not True:
+                continue
+            nvis += 1
+            inside = [e for e in p.events if e.idx > vis[0].idx]
+            tested = any(e.kind == "raw" and e.op == "attrs.__contains__" and e.key is not None and
+                         e.key.t == ("const", "entity_id") for e in inside)
+            wrote = any(e.kind == "raw" and e.op.startswith("attrs.") and e.kw["__effect__"].t[1] == "Wattr" and
+                        e.key is not None and e.key.t == ("const", "entity_id") for e in inside)
+            if not tested and not wrote:
+                skip = p
+        rep.check(R3, "H5Group.copy/every nested id", skip is None and nvis > 0,
+                  "the re-id walk over a copy skips an object without looking at its entity_id: nested entities of that kind "
+                  "(properties are HDF5 datasets) keep the ids of the originals" if skip else "required mechanism not found: "
+                  "no walk over the copied subtree", site=cp.file + ":%d" % cp.node.lineno,
+                  detail=describe_path(skip) if skip else None)
 
     # ---------------------------------------------------------------- R4
     def order_flags_ok(p, plist_term):
